@@ -7,26 +7,35 @@ Line-protocol driver for the quote model (C13).  A quote's signed fields are ten
 * `bytes F`                                          → hex of `bytes_for_signing`
 * `verify <claimed> <pubkey> <signer> F_signed F_presented` → `true|false`
 * `pair <pubkey> <signer> F_signed F_1 F_2`          → `<verify 1> <verify 2> <same hash input>`
+* `kpair <pubkey 1> <pubkey 2> <signer> F`           → `<verify 1> <verify 2> <same hash input>` (one signature, two key encodings)
 * `qhash <pubkey hex> <signature hex> F`              → hex of `PaymentQuote::hash` (Keccak-256 of the hash input)
 * `proof <self> <n> (<enc> <pubkey> <signer> F_signed F_presented)×n` → `<verify_for> payees=<..> byself=<k>`
 * `exp <offset ns>` / `pexp <offset ns>…`            → `true|false` (timestamp = now + offset)
 * `hist <offA> <liveA> <paidA> <offB> <liveB> <paidB>` → `<A.historical_verify(B)> <A.is_newer_than(B)>`
 
 Identities are abstract: `K<i>` is the protobuf encoding of key `i`, `P<i>` its peer id, `X<r>` an unrelated
-peer, `G<n>` undecodable bytes; `S<j>` = "signed by key `j` over the signing bytes of `F_signed`".
-The ideal scheme instance: the signature of `m` under key `k` is `k :: m`.
+peer, `G<n>` undecodable bytes; `S<j>` = "signed by key `j` over the signing bytes of `F_signed`"; `N<i>` is a
+non-canonical but decodable encoding of key `i`; `W0` is the small-order key / the signature `(neutral, 0)`, `Q0` its peer id.
+The scheme instance: the signature of `m` under key `k` is `k :: m`; ideal for every key but `W0`.
 -/
 namespace SafeNet.Driver.Quote
 open SafeNet.Quote SafeNet.MsgPack
 
+/-- the small-order key (`W0`: the curve's neutral element), its peer id `Q0`, and the one signature `W0` the
+harness presents under it (`(neutral, 0)`), which real ed25519 verification accepts for every message -/
+def weakKey : Nat := 2000000
+
 def scheme : SigScheme Nat where
   sign k m := k :: m
-  verify k m s := s == k :: m
-  ideal := by intro k m s; simp
+  verify k m s := if k = weakKey then s == [weakKey] else s == k :: m
+  strong k := decide (k ≠ weakKey)
+  ideal := by intro k m s hk; simp at hk; simp [hk]
   inj := by intro k m k' m' h; simpa using h
 
+/-- `[k]` is the canonical protobuf of key `k`; `[k, 0]` the same followed by an unknown field, which
+`try_decode_protobuf` skips (token `N<k>`) -/
 def ids : Ids Nat Nat where
-  decodeKey | [k] => some k | _ => none
+  decodeKey | [k] => some k | [k, 0] => some k | _ => none
   peerOf k := k
   decodePeer | [p] => some p | _ => none
 
@@ -59,15 +68,20 @@ def tagNat (pre : Char) (s : String) : Option Nat :=
 
 /-- peer token → abstract peer -/
 def peerTok (s : String) : Option Nat :=
+  if s = "Q0" then some weakKey else
   match tagNat 'P' s with
   | some i => some i
   | none => (tagNat 'X' s).map (· + 1000000)
 
 /-- pubkey token → abstract key bytes -/
 def keyTok (s : String) : Option (List Nat) :=
+  if s = "W0" then some [weakKey] else
   match tagNat 'K' s with
   | some i => some [i]
-  | none => (tagNat 'G' s).map fun _ => []
+  | none =>
+    match tagNat 'N' s with
+    | some i => some [i, 0]
+    | none => (tagNat 'G' s).map fun _ => []
 
 /-- encoded-peer token → abstract bytes -/
 def encTok (s : String) : Option (List Nat) :=
@@ -79,6 +93,7 @@ def sigBytesOf (f : Fields) : List Nat := bytesForSigning f.content f.secs f.met
 
 /-- signer token → signature bytes over the signed fields -/
 def sigTok (s : String) (signed : Fields) : Option (List Nat) :=
+  if s = "W0" then some [weakKey] else
   match tagNat 'S' s with
   | some j => some (scheme.sign j (sigBytesOf signed))
   | none => (tagNat 'G' s).map fun _ => []
@@ -89,7 +104,7 @@ def mkQuote (f : Fields) (pk sig : List Nat) : Quote :=
 
 def showBool (b : Bool) : String := if b then "true" else "false"
 
-def peerShow (p : Nat) : String := if p ≥ 1000000 then s!"X{p - 1000000}" else s!"P{p}"
+def peerShow (p : Nat) : String := if p = weakKey then "Q0" else if p ≥ 1000000 then s!"X{p - 1000000}" else s!"P{p}"
 
 /-- parse `n` proof entries -/
 def parseEntries : Nat → List String → Option (Proof × List String)
@@ -128,6 +143,14 @@ def step (_ : Unit) (ws : List String) : Unit × String :=
       let q1 := mkQuote f1 kb sg
       let q2 := mkQuote f2 kb sg
       let claimed := match kb with | [i] => i | _ => 0
+      some s!"{showBool (checkSigned scheme ids q1 claimed)} {showBool (checkSigned scheme ids q2 claimed)} {showBool (q1.hashInput == q2.hashInput)}"
+    | "kpair" :: k1 :: k2 :: s :: rest => do
+      let kb1 ← keyTok k1; let kb2 ← keyTok k2
+      let (f, _) ← parseFields rest
+      let sg ← sigTok s f
+      let q1 := mkQuote f kb1 sg
+      let q2 := mkQuote f kb2 sg
+      let claimed := match kb1 with | i :: _ => i | _ => 0
       some s!"{showBool (checkSigned scheme ids q1 claimed)} {showBool (checkSigned scheme ids q2 claimed)} {showBool (q1.hashInput == q2.hashInput)}"
     | "qhash" :: k :: sg :: rest => do
       let k ← unhex k; let sg ← unhex sg
